@@ -49,32 +49,37 @@
             Store { root: PathBuf::new(), manifest: Manifest::default(), next_files: BTreeMap::new(), on_disk_current: false, _lock: None }
         }
 
-        /// read_blob(what write_blob wrote) == Some(payload), and what it wrote is header ++ payload; every payload content, length <= 16
+        /// read_blob(what write_blob wrote) == Some(payload), and what it wrote is header ++ payload: every payload content of length N
         /// (bytes are compared at a symbolic index i, i.e. for all i)
-        #[cfg_attr(kani, kani::proof)]
-        #[cfg_attr(kani, kani::unwind(34))]
-        pub fn blob_roundtrip() {
-            let buf: [u8; MAXP] = kani::any();
-            let len: usize = kani::any();
-            kani::assume(len <= MAXP);
+        fn roundtrip_n<const N: usize>() {
+            let buf: [u8; N] = kani::any();
             let i: usize = kani::any();
-            kani::assume(i < MAXP);
-            let payload = &buf[..len];
+            if N > 0 { kani::assume(i < N); }    // (an unconditional assume(i < 0) would cut off the instantiations that follow)
+            let payload = &buf[..];
             let s = store();
             set_disk(None);
             set_exists(false);
             let rel = s.write_blob(payload);
             assert!(rel.is_some(), "write_blob must succeed when atomic_write succeeds");
             let on_disk = disk().unwrap();
-            assert!(on_disk.len() == len + 8, "blob file length is not 8 + payload length");
+            assert!(on_disk.len() == N + 8, "blob file length is not 8 + payload length");
             assert!(on_disk[0] == b'V' && on_disk[1] == b'F' && on_disk[2] == b'R' && on_disk[3] == b'G', "blob file does not start with the magic bytes");
             assert!(on_disk[4] == 2 && on_disk[5] == 0 && on_disk[6] == 0 && on_disk[7] == 0, "schema version is not stored as 4 little-endian bytes");
-            if i < len { assert!(on_disk[8 + i] == payload[i], "payload byte changed in the blob file"); }
+            if N > 0 { assert!(on_disk[8 + i] == payload[i], "payload byte changed in the blob file"); }
             let got = s.read_blob(&rel.unwrap());
             assert!(got.is_some(), "read_blob(write_blob(p)) is a miss");
             let got = got.unwrap();
-            assert!(got.len() == len, "read_blob(write_blob(p)) has another length than p");
-            if i < len { assert!(got[i] == payload[i], "read_blob(write_blob(p)) != p"); }
+            assert!(got.len() == N, "read_blob(write_blob(p)) has another length than p");
+            if N > 0 { assert!(got[i] == payload[i], "read_blob(write_blob(p)) != p"); }
+        }
+
+        /// ... for every length 0..=16 (concrete lengths keep CBMC's allocations concrete; symbolic lengths did not finish in 20 min)
+        #[cfg_attr(kani, kani::proof)]
+        #[cfg_attr(kani, kani::unwind(34))]
+        pub fn blob_roundtrip() {
+            roundtrip_n::<0>(); roundtrip_n::<1>(); roundtrip_n::<2>(); roundtrip_n::<3>(); roundtrip_n::<4>(); roundtrip_n::<5>();
+            roundtrip_n::<6>(); roundtrip_n::<7>(); roundtrip_n::<8>(); roundtrip_n::<9>(); roundtrip_n::<10>(); roundtrip_n::<11>();
+            roundtrip_n::<12>(); roundtrip_n::<13>(); roundtrip_n::<14>(); roundtrip_n::<15>(); roundtrip_n::<16>();
         }
 
         /// an identical existing blob is reused: no write, same relative path returned
